@@ -11,9 +11,11 @@ from __future__ import annotations
 
 import copy
 import logging
+import json
 import os
 import random
 import signal
+import time
 import sys
 import warnings
 
@@ -61,7 +63,7 @@ FIELD_OPS = [
     "dangling_input", "dup_output", "empty_name", "drop_type", "shuffle_nodes", "self_cycle", "bad_dtype", "bad_attr_type", "bad_dims", "ext_location",
     "ext_numbers", "dup_initializer", "dup_function", "dangling_output", "dup_graph_input", "dangling_device", "deep_nesting", "dup_value_info",
     "tensor_metadata", "missing_opset", "ref_attr", "sparse", "quant", "negative_dims", "string_tensor", "input_is_output", "sub_output_outer", "sub_output_outer", "sub_input_outer", "sub_init_outer", "output_is_initializer", "output_is_initializer",
-    "function_identity", "function_identity", "func_inner_shadow", "func_inner_shadow", "dup_keyed", "dup_keyed", "storage_field", "storage_field", "quant",
+    "function_identity", "function_identity", "func_inner_shadow", "func_inner_shadow", "dup_keyed", "dup_keyed", "storage_field", "storage_field", "quant", "dim_expr",
 ]  # fmt: skip
 _IGNORED_PREFIXES = tuple(p for p in {sys.prefix, sys.base_prefix, "/repo", "/verif", "/venv", "/root/.pyenv", "/usr/lib/python3", "/usr/lib/python3.12", "/proc/self"} if p)
 
@@ -397,6 +399,16 @@ def damage_fields(p: onnx.ModelProto, opsl: list) -> None:
                     (t.int64_data if t.data_type == onnx.TensorProto.INT64 else t.double_data if t.data_type == onnx.TensorProto.DOUBLE else t.int32_data).extend([int(v_) for v_ in vals])
                 else:
                     t.float_data.extend(vals)  # raw_data AND float_data
+        elif kind == "dim_expr":
+            # a symbolic dimension whose text is an expression that is expensive, ill-formed or hostile when EVALUATED
+            # (deserialization keeps dimension texts as they are: nothing has to be parsed to load a model)
+            texts = ["9**9**9**9", "2**(2**(2**(2**6)))", "(" * 3000 + "n" + ")" * 3000, "n" * 50000, "1/0", "n//0", "factorial(10**9)", "__import__('os').getpid()",
+                     "n +", "", " ", "\u00e9\u2603", "-" * 4000 + "n", "max(" * 200 + "n" + ")" * 200, "n**n**n**n", "10**10**10"]
+            cands = [vi for vi in list(g.input) + list(g.output) + list(g.value_info) if vi.type.HasField("tensor_type") and vi.type.tensor_type.HasField("shape") and len(vi.type.tensor_type.shape.dim)]
+            if cands:
+                vi = cands[c % len(cands)]
+                d_ = vi.type.tensor_type.shape.dim[(c >> 3) % len(vi.type.tensor_type.shape.dim)]
+                d_.dim_param = texts[(c >> 6) % len(texts)]
         elif kind == "dup_keyed":
             # the same key twice in a repeated field that ir-py reads into a mapping (opset imports under both spellings
             # of the default domain, metadata keys, attribute names): whatever wins, one more round trip must agree
@@ -711,6 +723,54 @@ def check_one(proto_bytes: bytes, scratch: str, seam: fsseam.FsSeam, use_load: b
     return None
 
 
+def check_one_forked(proto_bytes: bytes, scratch: str, seam, use_load: bool, inc, wall: float = 12.0) -> dict | None:
+    """check_one in a forked child with a hard deadline enforced from outside (a computation inside C code - a huge
+    integer power, say - cannot be interrupted by a signal handler of the same process)."""
+    import select
+
+    r_fd, w_fd = os.pipe()
+    pid = os.fork()
+    if pid == 0:
+        code = 0
+        try:
+            os.close(r_fd)
+            v = check_one(proto_bytes, scratch, seam, use_load, lambda *a, **k: None)
+            os.write(w_fd, json.dumps(v, default=str).encode())
+        except BaseException:  # noqa: BLE001
+            code = 3
+        finally:
+            os._exit(code)
+    os.close(w_fd)
+    inc("checked_in_forked_child_with_deadline")
+    buf = b""
+    deadline = time.monotonic() + wall
+    timed_out = False
+    while True:
+        left = deadline - time.monotonic()
+        if left <= 0:
+            timed_out = True
+            break
+        ready, _, _ = select.select([r_fd], [], [], left)
+        if not ready:
+            timed_out = True
+            break
+        chunk = os.read(r_fd, 65536)
+        if not chunk:
+            break
+        buf += chunk
+    os.close(r_fd)
+    if timed_out:
+        os.kill(pid, signal.SIGKILL)
+        os.waitpid(pid, 0)
+        return {"clause": "does-not-terminate", "detail": f"from_proto / to_proto / tensor inspection did not finish within {wall:.0f} s (child process killed)", "key": "does-not-terminate|forked"}
+    _pid, status = os.waitpid(pid, 0)
+    if not buf:
+        if os.WIFSIGNALED(status) or os.WEXITSTATUS(status) != 0:
+            return {"clause": "deserialization-crashed-the-process", "detail": f"the child process ended with status {status} without a verdict", "key": "deserialization-crashed-the-process"}
+        return None
+    return json.loads(buf.decode())
+
+
 def run_case(case: dict) -> dict:
     stats: dict = {}
     res = {"violation": None, "violations": [], "error": None, "stats": stats, "steps": 0, "distinct": [], "states": [], "case": case}
@@ -756,7 +816,10 @@ def run_case(case: dict) -> dict:
                 inc("variants")
                 for o in var["ops"]:
                     inc("damage_" + o[0])
-                v = check_one(data, scratch, seam, bool(var.get("load")), inc)
+                if any(o[0] == "dim_expr" for o in var["ops"]):
+                    v = check_one_forked(data, scratch, seam, bool(var.get("load")), inc)
+                else:
+                    v = check_one(data, scratch, seam, bool(var.get("load")), inc)
                 res["steps"] += 1
                 trail.append((vi, v["clause"] if v else None))
                 if data != base_bytes:
